@@ -72,12 +72,21 @@ hwloc_synthetic_process_indexes always divide by a positive width) -/
 theorem C07_no_divzero (s : Bytes) (e : Err) (log : Log) (h : parse s = .error (e, log)) : e ≠ .divzero := by
   rcases parse_err_kinds s e log h with rfl | rfl <;> simp
 
-/-- every failing run of the parser is a rejection (EINVAL) or the failed assertion `assert(nbs)` -/
+/-- every failing run of the parser is a rejection (EINVAL) or the failed assertion `assert(nbs)`; the latter is
+unreachable for the `x*y` notation (C07_xy_never_aborts) and, for the type notation, would need the product of the exact
+width ratios of distinct levels to be 0 modulo 2^64 (it telescopes to a width ≤ total < 2^32; that last step is not
+formalised) -/
 theorem C07_error_kinds (s : Bytes) (e : Err) (log : Log) (h : parse s = .error (e, log)) : e = .einval ∨ e = .abort :=
   parse_err_kinds s e log h
 
-/-- with positive non-decreasing widths, `assert(nb)` and `assert(step)` of the type interleaving never fail (for totals
-that can be allocated: `Hw.Syn.allocLimit`); the only assertion left is `assert(nbs)` -/
+/-- F69 (fixed by 574e2e0): the `x*y` notation never fails an assertion — each accepted loop keeps `nbs * nb ≤ total`, so
+the product of the counts never wraps and is never 0 -/
+theorem C07_xy_never_aborts (levels : List Syn.Level) (ix : Idx) (total : Nat) (s : Bytes) (len : Nat) (e : Err)
+    (hs : ix.str = some (s, len)) (hd : isDig (s.head?.getD 0) = true) : (processIndexes levels ix total).1 ≠ .err e :=
+  processIndexes_xy_no_err levels ix total s len e hs hd
+
+/-- with positive non-decreasing widths, `assert(nb)` and `assert(step)` of the type interleaving never fail, for every
+total (totals above UINT_MAX are refused before the loops are computed); the only assertion left is `assert(nbs)` -/
 theorem C07_type_interleave_asserts_hold (levels : List Syn.Level) (ix : Idx) (total : Nat) (e : Err)
     (hne : 1 ≤ levels.length) (hlast : (lvAt levels (levels.length - 1)).arity = 0)
     (hpos : ∀ j, j < levels.length → 1 ≤ (lvAt levels j).width)
@@ -85,10 +94,10 @@ theorem C07_type_interleave_asserts_hold (levels : List Syn.Level) (ix : Idx) (t
     (h : (processIndexes levels ix total).1 = .err e) : e = .abort :=
   processIndexes_err levels ix total e hne hlast hpos hmono h
 
-/-- OPEN DEFECT (reported): the product of the `nb` of an `x*y` interleaving is accumulated modulo 2^64; four loops of
-65536 make it 0 and `assert(nbs)` aborts -/
-theorem C07_nbs_wrap_abort_witness :
-    (match parse (str "PU:4(indexes=1*65536:1*65536:1*65536:1*65536)") with | .error (e, _) => some e | .ok _ => none) = some .abort := by
+/-- the former F69 description: accepted, the attribute is ignored -/
+theorem C07_F69_ignored :
+    (match parse (str "PU:4(indexes=1*65536:1*65536:1*65536:1*65536)") with
+     | .ok p => some (p.levels.map (·.idx.arr)) | .error _ => none) = some [none, none, none] := by
   decide
 
 /-- the former F67 description is rejected -/
